@@ -272,8 +272,10 @@ func (l *ledger) hook(op int, pkt *router.Packet) {
 		if r.state.Load() == stUnknown {
 			// registration by initPacketPool (single goroutine, before the
 			// data plane's goroutines exist)
+			r.mu.Lock()
 			r.bufBase = uintptr(unsafe.Pointer(unsafe.SliceData(pkt.RawPacket)))
 			r.seqs = map[uint64]uint32{}
+			r.mu.Unlock()
 			r.state.Store(stFree)
 			return
 		}
